@@ -633,7 +633,10 @@ def _fresh_main(path):
     with open(path) as fh:
         job = json.load(fh)
     import_repo()
+    warn_error = "warn:error" in job.get("import_first", [])
     for name in job.get("import_first", []):
+        if name == "warn:error":
+            continue
         if name.startswith("attr:"):
             # reach the subpackage the other way: as an attribute of the package (its lazy __getattr__)
             getattr(importlib.import_module("py_ecc"), name[5:])
@@ -642,6 +645,11 @@ def _fresh_main(path):
     W = World()
     R = Runner(W, fresh=True)
     out = {}
+    if warn_error:
+        # interpreter-wide warning settings are not an argument either: with warnings turned into errors (after the
+        # imports, so that third-party import-time deprecations stay out of it) every call must give the same result
+        import warnings
+        warnings.simplefilter("error")
     for i in job["order"]:
         R.results = []
         R.steps = []
@@ -894,7 +902,7 @@ def make_machine(ctx, W, budget, fresh_every):
                 idx = list(range(n))
                 rev = idx[::-1]
                 perm = sorted(idx, key=lambda q: (q * 7919 + n) % (n + 3))
-                orders = [[rev, ["flag:-O"] if counter["histories"] % (2 * fresh_every) == 0 else []],
+                orders = [[rev, ["flag:-O"] if counter["histories"] % (2 * fresh_every) == 0 else ["warn:error"]],
                           [perm, ["attr:secp256k1", "py_ecc.bls", "attr:bn128", f"env:PYTHONHASHSEED={1 + counter['histories'] % 997}"]]]
                 ctx.case = {"steps": self.R.steps, "fresh": orders}
                 check_fresh(ctx, W, self.R, orders)
@@ -1009,7 +1017,8 @@ def t_pinned(ctx):
     n = len(steps)
     case = {"steps": steps, "fresh": [[list(range(n))[::-1], []], [list(range(0, n, 2)) + list(range(1, n, 2)), ["py_ecc.bn128"]],
                                        [list(range(n)), ["attr:secp256k1", "attr:bls", "attr:optimized_bn128"]],
-                                       [list(range(n)), ["flag:-O", "env:PYTHONHASHSEED=4242"]]]}
+                                       [list(range(n)), ["flag:-O", "env:PYTHONHASHSEED=4242"]],
+                                       [list(range(n)), ["warn:error"]]]}
     ctx.ev(n)
     o_history(ctx, case)
     for g in ("field", "curve", "pairing", "hash", "codec", "bls", "secp"):
